@@ -13,7 +13,7 @@ def run(chk):
     cfg = rc.set_consts("MC_C08", MaxLen=4 if quick else 5)
     res = vlib.run_tlc("MC_C08", cfg_text=cfg, timeout=1500, heap="12g")
     chk.add_tlc(res, "MC_C08 MaxLen=%d" % (4 if quick else 5))
-    rc.replay(chk, res.cases, layouts=("line", "inline", "mltag", "twin", "combo"), cli_sample=150 if quick else 1000)
+    rc.replay(chk, res.cases, layouts=("line", "inline", "inline2", "mltag", "twin", "combo"), cli_sample=150 if quick else 1000)
     from props import rules_long
     rules_long.run(chk, "pattern", n=300 if quick else 3000)
     chk.assumptions += ["regex spellings of the abstract patterns are asserted against Python's re per line class"]
